@@ -101,7 +101,13 @@ def run(tier, seed, t0):
                 o = ores.get(r['cid'])
                 if o is None or not o.startswith('ok same'):
                     t = tmap[r['tid']]
-                    cls = 'index-duplicates' if has_index(t) else 'strict-not-bijective'
+                    # the known finding F8 is specific: an index collection collapses repeated entries, so the value
+                    # re-encodes to STRICTLY FEWER bytes than were consumed; any other mismatch on such a type is not it
+                    shorter = False
+                    if o is not None and o.startswith('diff '):
+                        parts = o.split(' ')
+                        shorter = len(parts) == 3 and len(parts[2]) < len(parts[1])
+                    cls = 'index-duplicates' if (has_index(t) and shorter) else 'strict-not-bijective'
                     failures.append({'class': cls, 'key': '%s %s' % (r['type'], r['input']),
                                      'what': 'strict mode accepted an input that does not re-serialize to itself: %s on %s -> %s; re-encode: %s [%s]' % (r['type'], r['input'], r['impl'], o, cfg),
                                      'type': r['type'], 'input': r['input'], 'result': r['impl'], 'reencode': o, 'cfg': cfg})
